@@ -88,6 +88,16 @@ func c12Plan(tier string) []PlanItem {
 			items = append(items, PlanItem{c12Scenario(seq, thr), 0})
 		}
 	}
+	// the application replaces its OnDemote callback 50 ms after the first health tick of the
+	// term (registration while leading): the demotion has to invoke the current callback
+	for _, seq := range c12SeqsOver(3, []string{"bad", "ok"}) {
+		for _, thr := range []int{1, 2, 3} {
+			s := c12Scenario(seq, thr)
+			s.Name += "/ondemote-replaced"
+			s.Script = append(s.Script, Item{At: 1*ms + s.H + 50*ms + 3*us, Actor: "app", Do: "reregister", Inst: "A", Fixed: true})
+			items = append(items, PlanItem{s, 0})
+		}
+	}
 	// other heartbeat intervals (the 100 ms budget of a check does not depend on H): short
 	// sequences with H = 500 ms and H = 4 s
 	for _, kk := range []struct {
@@ -142,6 +152,11 @@ func c12Plan(tier string) []PlanItem {
 
 func oracleC12(r *Result) ([]Violation, bool) {
 	var s vset
+	for _, e := range r.Trace {
+		if e.K == "demote.stale" {
+			s.add(e.T, "replaced-ondemote-invoked", "%s: a demotion at %v invoked an OnDemote callback that the application had replaced before", e.I, e.T)
+		}
+	}
 	spec := r.Scn.inst("A")
 	thr := spec.MaxFail
 	if thr <= 0 {
